@@ -25,12 +25,12 @@ SHARDS = {"quick": 15, "thorough": 16}
 
 def floors(tier):
     q = tier == "quick"
-    return {"sigma-bound": 40000 if q else 800000, "sigma-limit": 8000 if q else 150000,
-            "history/step": 40000 if q else 900000}
+    return {"sigma-bound": 40000 if q else 6400000, "sigma-limit": 8000 if q else 1200000,
+            "history/step": 40000 if q else 7200000}
 
 
 def generate(ctx):
-    n = ctx.budget(16000, 300000)
+    n = ctx.budget(16000, 2400000)
     for _ in range(n):
         r = ctx.rng.random()
         cfg = gen.gen_cfg(ctx.rng, gammas=["default", "default", "one", "three", "zero", "dep", "inv_k"])
@@ -49,7 +49,7 @@ def generate(ctx):
         for mode in ("skill", "random", "adversarial"):
             combos.append((m, mode))
     G = 3000 if ctx.tier == "quick" else 25000
-    reps = 1 if ctx.tier == "quick" else 3
+    reps = 1 if ctx.tier == "quick" else 24
     for rep in range(reps):
         for ci, (m, mode) in enumerate(combos):
             if (ci + rep * 7) % ctx.nshards != ctx.shard:
